@@ -288,7 +288,8 @@ func c05Gen(rt *rapid.T) c05Case {
 		k := rapid.IntRange(0, 11).Draw(rt, "op")
 		switch {
 		case k <= 4:
-			op := c05Op{Kind: "publish", Topic: refGenTopic(rt, "t"), QoS: rapid.IntRange(0, 2).Draw(rt, "q"), Retain: rapid.Bool().Draw(rt, "r"), Seed: rapid.IntRange(0, 255).Draw(rt, "seed")}
+			op := c05Op{Kind: "publish", Topic: refGenTopic(rt, "t"), QoS: rapid.IntRange(0, 2).Draw(rt, "q"), Retain: rapid.Bool().Draw(rt, "r"), Seed: rapid.IntRange(0, 255).Draw(rt, "seed"),
+				Dup: rapid.IntRange(0, 3).Draw(rt, "staleDup") == 0}
 			if rapid.IntRange(0, 7).Draw(rt, "longTopic") == 0 {
 				op.Topic = c05GenString(rt, "lt") + "x"
 				if len(op.Topic) > 65535 {
@@ -453,7 +454,8 @@ func c05Run(tb rapid.TB, c c05Case) {
 		switch op.Kind {
 		case "publish":
 			payload := c05Payload(op.PayloadLen, op.Seed)
-			msg := &Message{Topic: op.Topic, Payload: payload, QoS: QoS(op.QoS), Retain: op.Retain, ID: uint16(op.ID)}
+			// (Dup as left over in a forwarded / re-used Message: a first transmission still goes out with DUP=0)
+			msg := &Message{Topic: op.Topic, Payload: payload, QoS: QoS(op.QoS), Retain: op.Retain, ID: uint16(op.ID), Dup: op.Dup}
 			if err := r.cli.Publish(ctx, msg); err != nil {
 				checkFrame(what)
 				fail("%s: Publish failed: %v", what, err)
